@@ -190,6 +190,12 @@ func (c *Case) Known(sig string) bool { _, ok := c.S.known[sig]; return ok }
 func (c *Case) Violation(sig, format string, args ...any) {
 	msg := fmt.Sprintf(format, args...)
 	s := c.S
+	if os.Getenv("VERIF_PANIC_IS_VIOLATION") != "" && !strings.HasPrefix(sig, "c20-") && !strings.HasPrefix(sig, "harness-") {
+		// this history is being re-run for the C20 check: what its own property says about it is
+		// that property's business (and its known findings are listed there)
+		c.Class("other-property-verdict-ignored")
+		panic(abandonCase{})
+	}
 	s.mu.Lock()
 	if _, ok := s.known[sig]; ok {
 		s.knownHits[sig]++
